@@ -39,6 +39,10 @@ static char *cmn_init_repr;
 static char first_err[200];
 static const char *err_kind;   /* phrase of the first error message, looked up in the whole message (svspec) */
 static char fatal_file[64];
+/* messages of dict_read_s3file / dict_add_word counted while a dictionary case loads (bridge C10 -> C16):
+ * no pronunciation, unknown phone, failed to add, missing base word, empty word */
+static int dict_msgs[5];
+static int dict_counting;
 
 static const config_param_t defs[] = { CONFIG_OPTIONS, CONFIG_EMPTY_OPTION };
 
@@ -63,6 +67,13 @@ static void on_exit_(void)
 static void err_cb(void *u, err_lvl_t lvl, const char *msg)
 {
     (void)u;
+    if (dict_counting && lvl >= ERR_ERROR) {
+        if (strstr(msg, "No pronunciation for word")) dict_msgs[0]++;
+        else if (strstr(msg, "is missing in the acoustic model")) dict_msgs[1]++;
+        else if (strstr(msg, "Failed to add the word")) dict_msgs[2]++;
+        else if (strstr(msg, "Missing base word for")) dict_msgs[3]++;
+        else if (strstr(msg, "Cannot add an empty word")) dict_msgs[4]++;
+    }
     if (lvl >= ERR_FATAL) {
         /* FATAL: "file.c", line N: ... -> remember the file: the site that exits the process */
         const char *q = strchr(msg, '"');
@@ -206,6 +217,11 @@ static void dump_dict(dict_t *d)
         printf(":%d:%d", d->word[i].basewid, d->word[i].alt);
     }
     printf("\n");
+    /* dict_wordid of every stored spelling (C16: the hash map is the index of the word table) */
+    printf("%s wids", cur_id);
+    for (i = 0; i < d->n_word; i++) printf(" %d", dict_wordid(d, d->word[i].word));
+    printf("\n");
+    printf("%s special %d %d %d\n", cur_id, d->startwid, d->finishwid, d->silwid);
 }
 
 static void restore_dict(void)
@@ -214,15 +230,47 @@ static void restore_dict(void)
     if (decoder_init_dict(D) == NULL) { printf("%s harness-error base dict\n", cur_id); fflush(stdout); _exit(3); }
 }
 
-static void case_dict(unsigned char *b, size_t n, unsigned char *b2, size_t n2, int have2)
+static void case_dict(unsigned char *b, size_t n, unsigned char *b2, size_t n2, int have2, int nocase)
 {
     unsigned char *c = exact(b, n), *c2 = have2 ? exact(b2, n2) : NULL;
     s3file_t *s = s3file_init(c, n), *s2 = have2 ? s3file_init(c2, n2) : NULL;
-    dict_t *d = dict_init_s3file(D->config, D->acmod->mdef, s, s2);
+    config_t *cfg = D->config;
+    dict_t *d;
+    if (nocase) {   /* `dictcase` set: case-insensitive word and phone lookup */
+        cfg = config_init(NULL);
+        config_set_bool(cfg, "dictcase", 1);
+    }
+    memset(dict_msgs, 0, sizeof dict_msgs);
+    dict_counting = 1;
+    d = dict_init_s3file(cfg, D->acmod->mdef, s, s2);
+    dict_counting = 0;
+    if (nocase) config_free(cfg);
+    printf("%s dictmsgs %d %d %d %d %d\n", cur_id, dict_msgs[0], dict_msgs[1], dict_msgs[2], dict_msgs[3], dict_msgs[4]);
     if (d == NULL) printf("%s rej\n", cur_id);
     else {
         dict2pid_t *d2p;
         dump_dict(d);
+        {   /* run-time additions on the dictionary that came out of the text reader (C16_wf_loaded_then_anything):
+             * an alternate of word 0, a duplicate of word 0, an alternate without base word */
+            s3cipid_t ph = bin_mdef_silphone(D->acmod->mdef);
+            char *alt = (char *)malloc(strlen(d->word[0].word) + 8);
+            int i, j, r1, r2, r3;
+            sprintf(alt, "%s(77)", d->word[0].word);
+            r1 = dict_add_word(d, alt, &ph, 1);
+            r2 = dict_add_word(d, d->word[0].word, &ph, 1);
+            r3 = dict_add_word(d, "zz-nobase(2)", &ph, 1);
+            free(alt);
+            printf("%s adds %d %d %d\n", cur_id, r1, r2, r3);
+            printf("%s words2", cur_id);
+            for (i = 0; i < d->n_word; i++) {
+                printf(" "); hexs(d->word[i].word); printf(":");
+                for (j = 0; j < d->word[i].pronlen; j++) printf("%s%d", j ? "," : "", d->word[i].ciphone[j]);
+                printf(":%d:%d", d->word[i].basewid, d->word[i].alt);
+            }
+            printf("\n%s wids2", cur_id);
+            for (i = 0; i < d->n_word; i++) printf(" %d", dict_wordid(d, d->word[i].word));
+            printf("\n");
+        }
         d2p = dict2pid_build(D->acmod->mdef, d);
         printf("%s d2p %s\n", cur_id, d2p ? "ok" : "null");
         dict2pid_free(d2p);
@@ -705,7 +753,7 @@ int main(int argc, char **argv)
         decoder_set_cmn(D, cmn_init_repr);   /* every case starts from the same live means */
         first_err[0] = 0;
         if (!strcmp(w[1], "fsg")) case_fsg(b1, l1);
-        else if (!strcmp(w[1], "dict")) case_dict(b1, l1, b2, l2, have2);
+        else if (!strcmp(w[1], "dict")) case_dict(b1, l1, b2, l2, have2, flag && !strcmp(flag, "nocase"));
         else if (!strcmp(w[1], "json")) case_json(b1, l1, flag);
         else if (!strcmp(w[1], "setstr")) case_setstr(b1, l1, b2 ? b2 : (unsigned char *)"", l2);
         else if (!strcmp(w[1], "align")) case_align(b1, l1);
